@@ -1,6 +1,6 @@
 SPECIFICATION Spec
 CONSTANTS
-  EstimatorSet <- ThreeEstimators
+  EstimatorSet <- BootstrapOnly
   DistrictKinds <- BothKinds
   EstimandSet <- VoteCounts
   AlphaSet <- Alphas3
